@@ -83,10 +83,12 @@ CLAIMS = {
 }
 
 CLAIMS['C16'] = dict(
-    technique='static analysis: use analysis (difference reaches only abs/neg/comparisons) => piecewise-constant; folding on every interval/boundary representative vs the official scale',
-    text='Scale table equals the official 24-step WBF scale; the difference flows only into abs(), unary minus and comparisons with '
-         'integer constants / table entries, hence the result is constant between consecutive comparison constants; folding k-1,k,k+1 for '
-         'every constant, both signs, 0 and +-1e9 therefore decides every integer (range, monotone, odd follow); score_to_imp passes the sum.',
+    technique='static analysis: abstract interpretation of the conversion over self-refining intervals of the integers (an interval-abstract difference; comparisons split the interval); table equality; dense constant folding as counterexample search',
+    text='Scale table equals the official 24-step WBF scale.  point_difference_to_imps is folded on an interval-abstract difference: a comparison '
+         'with a constant the interval straddles splits the interval there and the parts are folded again, an operation that needs the exact value '
+         'is an analysis error - so the partition refines itself to the constants the code distinguishes whatever its shape (loop, bisect, ifs); '
+         'on each resulting interval (50, covering every integer) the result is one integer equal to the official scale at both ends (range, '
+         'monotone, odd follow).  score_to_imp is decided the same way for every integer score against a grid of scores in both positions.',
     ref='4/C16')
 
 CLAIMS['C12'] = dict(
@@ -100,11 +102,14 @@ CLAIMS['C12'] = dict(
          'by value, also as board settings. Not decided: escaping of arbitrary Unicode (delegated to json.dumps; ensure_ascii must stay on).',
     ref='4/C12')
 CLAIMS['C13'] = dict(
-    technique='static analysis: typestate (open -> write* -> close on every exit incl. exceptional) by a syntax-directed walk of Server.run; path summaries of __enter__/__exit__/close/_write_content; error-discipline scan',
-    text='The log writer is released by a construct covering the exceptional edges (with-item whose __exit__ must-calls close() and does not '
-         'swallow, file entered before the writer) - explicit open()/close() with raising statements in between is reported; close writes the '
-         'closing literal on every path; json.dumps precedes the first stream write; the per-board write closes the loop body; no except '
-         'handler in the session code; ILLEGAL from take_bid always leads to raise; parsers never return None.',
+    technique='static analysis: abstract interpretation of the communication skeleton with injected aborts (the real Server.run and JsonWriter code on an abstract file system); typestate (open -> write* -> close on every exit incl. exceptional) by a syntax-directed walk of Server.run; path summaries of __enter__/__exit__/close/_write_content',
+    text='(R6) Abstract sessions of three boards in which board k = 1..3 is hit by an offending action - a call the engine answers ILLEGAL, an '
+         'unparseable call, a card the engine refuses, an unparseable card - or by the operator\'s interrupt, at the first / a middle / the last '
+         'call or card: the table manager stops, and the file at the configured output path is ONE parseable JSON document with exactly the k-1 '
+         'finished boards, closed (the real open / _write_content / close run on an abstract file).  For all abort points, structurally: the log '
+         'writer is released by a construct covering the exceptional edges (with-item whose __exit__ must-calls close() and does not swallow, file '
+         'entered before the writer); close writes the closing literal on every path; json.dumps precedes the first stream write; the per-board '
+         'write closes the loop body; no handler in the session code swallows the abort; parsers never return None.',
     ref='4/C13')
 CLAIMS['C14'] = dict(
     technique='static analysis: encoders/decoders folded inside the analyser on a covering family of deal shapes x first seats against canonical-form oracles; numpy pair folded on a 1-d array model; slice tiling under three permutations',
@@ -126,7 +131,7 @@ CLAIMS['C17'] = dict(
 CLAIMS['C18'] = dict(
     technique='static analysis: path summary of write_board_result (tag order, separator, value provenance), sibling agreement with the reader separator pattern, write_line folded on every length class, who-may-write the stream, writer lines folded through parse_board',
     text='15 mandatory tags in order on every path; a line fullmatching the reader\'s separator pattern follows the Result tag; the stream is '
-         'written only by write_line, whose chunks are <= 255 characters for every length 1..1100 (text used only through len/slice); tag values '
+         'written only by write_line, whose chunks are <= 255 characters for every length 1..1100 (folded on opaque texts of which only length and line breaks exist); tag values '
          'by provenance per path (passed out / played with 0, 7, 13 tricks); the 15 written tag lines are read back verbatim by parse_board; whole-file '
          'rule R6: sequences of board results (played, passed out, 0 tricks, repeated board number, a name longer than a line) written through ONE '
          'writer object, every line <= 255, read back as one game per result with the 15 values and recovered as board settings in order.',
